@@ -18,7 +18,9 @@ RULE = ("(a) every validator x every JSON value; (b) generated headers (register
 ASSUMPTIONS = ["header values are JSON values without lone surrogates; headers are JSON objects (other shapes: C16)"]
 
 JWE_ALGS = ["dir", "A128KW", "RSA-OAEP", "ECDH-ES", "ECDH-ES+A128KW", "A128GCMKW", "PBES2-HS256+A128KW", "ECDH-1PU", "ECDH-1PU+A128KW"]
-EXTRAS = [None, {"foo": ("str", False)}, {"foo": ("int", True)}, {"exp": ("int", False), "b64": ("bool", False)}]
+EXTRAS = [None, {"foo": ("str", False)}, {"foo": ("int", True)}, {"exp": ("int", False), "b64": ("bool", False)},
+          # caller declarations for names that are also standard parameters: the caller's `required` flag and type are the ones enforced
+          {"kid": ("str", True)}, {"typ": ("int", False)}, {"cty": ("str", True), "foo": ("str", False)}, {"x5t": ("list[str]", False), "kid": ("int", True)}]
 
 
 def registry_for(kind, strict, extra):
